@@ -891,8 +891,10 @@ func (g *generator) genService(f *File) {
 
 // doublePool: small and non-integral values, whole numbers beyond every integer type (a printer
 // that goes through int64 wraps them), the largest and smallest magnitudes, values whose shortest
-// decimal form needs 17 digits, and negative zero.
+// decimal form needs 17 digits.
 var doublePool = []string{"0.0", "1.5", "-2.25", "3.0", "1e10", "-1.0e-3", "123456.789", "0.1", "2.5e+2",
 	"1e19", "-1e19", "1e20", "6.022e23", "9223372036854775808.0", "-9223372036854775809.0", "18446744073709551616.0", "1e15", "1e21", "1e22", "123456789012345680000.0",
 	"1.7976931348623157e308", "-1.7976931348623157e308", "5e-324", "2.2250738585072014e-308", "1e-310",
-	"0.30000000000000004", "9007199254740993.0", "4503599627370497.5", "-0.0", "1e300", "-1e-300"}
+	"0.30000000000000004", "9007199254740993.0", "4503599627370497.5", "1e300", "-1e-300"}
+// (negative zero is not in the pool: Go has no negative-zero constant, thriftrw writes the literal
+// as `-0` and the generated constant / default is +0 — known finding D76, probed by a fixed program)
